@@ -1,0 +1,13 @@
+//go:build verif
+
+package services
+
+// VerifYield, when set by a verification harness, is called at named points between two
+// critical sections so that the harness can interleave goroutines deterministically.
+var VerifYield func(point string)
+
+func verifYield(point string) {
+	if f := VerifYield; f != nil {
+		f(point)
+	}
+}
